@@ -121,6 +121,15 @@ impl<S> MemCase<S> {
     }
 }
 
+/// Verification hook (compiled only under `--cfg epserde_verif`): read-only access to the
+/// backing region of a [`MemCase`], whose field is crate-private.
+#[cfg(epserde_verif)]
+impl<S> MemCase<S> {
+    pub fn verif_backend(&self) -> &MemBackend {
+        &self.1
+    }
+}
+
 unsafe impl<S: Send> Send for MemCase<S> {}
 unsafe impl<S: Sync> Sync for MemCase<S> {}
 
